@@ -7,6 +7,7 @@ import RapidModel.Generated.Consts
 import RapidProofs.Shrink
 import RapidProofs.TranslatedEq
 import RapidProofs.TranslatedEngineEq
+import RapidProofs.TranslatedCheckEq
 
 namespace Rapid.C07
 
@@ -76,5 +77,24 @@ theorem source_findBug_seed (p : Prog) (early : Nat → Bool) (checks : Nat) (se
       (.ok (v, i, e, (findBug p checks seed early).seed, err), s') := by
   obtain ⟨s', h⟩ := tr_findBug p early checks seed sd0 fuel hc hf
   exact ⟨_, _, _, _, s', h⟩
+
+/-- **the seed the source's `doCheck` hands back (the one `checkTB` prints) is the seed of the failing test case of the
+    generation loop** — whenever no fail file reproduced and the loop found a failure; and it is the seed the source has just
+    re-run on a fresh `*T` (`source_doCheck`: the `once (.rng seed)` request) -/
+theorem source_doCheck_seed (E : Go.CEnv) (checks : Nat) (hc : checks < 2 ^ 62) (seed : UInt64) (failfile : String) (globf : Bool)
+    (fuel : Nat) (hl : (Go.failFileNames failfile globf E.found).length < 2 ^ 62)
+    (hfuel : (Go.failFileNames failfile globf E.found).length < fuel)
+    (hfiles : firstFailFile E.p ((Go.failFileNames failfile globf E.found).map E.file) 0 = none)
+    (hbug : (findBug E.p checks seed E.early).err.isSome) :
+    ∃ r, (Go.CM.run E (Translated.doCheck (Int64.ofNat checks) seed failfile globf fuel) none).1 = .ok r ∧
+      r.2.2.2.1 = (findBug E.p checks seed E.early).seed := by
+  rw [Go.tr_doCheck E checks hc seed failfile globf fuel hl hfuel]
+  have hs : (doCheck E.p checks seed ((Go.failFileNames failfile globf E.found).map E.file) E.early E.cands).seed =
+      (findBug E.p checks seed E.early).seed := by
+    simp only [doCheck, hfiles]
+    cases hfe : (findBug E.p checks seed E.early).err with
+    | none => rw [hfe] at hbug; cases hbug
+    | some x => dsimp only; split <;> rfl
+  exact ⟨_, rfl, hs⟩
 
 end Rapid.C07
